@@ -22,7 +22,7 @@ def round_sig(x, p):
 
 def build(seed=0, nbase=7, precs=PRECS):
     rnd = random.Random(seed)
-    base = [0.1, 1.0 / 3.0, 123456.789012345678, 2.0 ** 53 + 2.0] + rnd.sample(BASE, nbase - 4)
+    base = [0.1, 1.0 / 3.0, 123456.789012345678, 2.0 ** 53 + 2.0, 5.0] + rnd.sample(BASE, nbase - 4)
     if seed:
         base += [rnd.uniform(-10, 10), rnd.lognormvariate(0, 8)]
     vals = set(base)
@@ -33,7 +33,7 @@ def build(seed=0, nbase=7, precs=PRECS):
         vals |= new
     vals = sorted(vals)
     index = {v: i + 1 for i, v in enumerate(vals)}
-    table = {"n": len(vals), "precs": list(precs),
+    table = {"n": len(vals), "precs": list(precs), "short": index[5.0],      # the value written as the one-character token "5"
              "rnd": [[index[round_sig(v, p)] for v in vals] for p in precs]}
     return vals, table
 
